@@ -17,6 +17,7 @@ import (
 
 	"verifh/ev"
 	"verifh/gen"
+	"verifh/ref"
 )
 
 // ---------------------------------------------------------------------------
@@ -796,4 +797,73 @@ func TestC19_NumberForms(t *testing.T) {
 		}
 	}
 	c19Num.rec().Exhaustive()
+}
+
+// ---------------------------------------------------------------------------
+// Many distinct configurations in one process: the service must not depend on how many different structured suites (or
+// secrets, or registered names) it has been asked about — a table that fills up, a cache that resets itself badly.
+
+type c19ManyCase struct {
+	N int `json:"n"` // the n-th distinct structured suite of the run
+}
+
+var c19Many = newPart("C19", "distinct-suites",
+	"enumeration: 300 (thorough: 3000) DISTINCT valid structured suites (digits 4..10 x 3 hashes x field subsets x challenge formats x password hashes x time steps) sent one after the other to /ocra/generate of one server process, each with an admissible input and a fresh secret, every 25th followed by /ocra/validate of the returned code and by the RFC probe; invariant: each is answered within 5 s with the RFC 6287 value; every case distinct and non-trivial",
+	func(c c19ManyCase) verdict {
+		sv := server()
+		n := c.N
+		cfg := ref.OCRACfg{SessionNN: -1, Digits: 4 + n%7, Hash: (n / 7) % 3, Q: true, QFormat: 1 + (n/21)%6, C: (n/126)%2 == 1, S: (n/252)%2 == 1, T: (n/504)%2 == 1, TimeStep: 1 + n%59}
+		if (n/1008)%2 == 1 {
+			cfg.P, cfg.PHash = true, 1+(n/2016)%3
+		}
+		key := []byte(fmt.Sprintf("key-%06d-%06d", n, n*7919))
+		in := ref.OCRAIn{Q: []byte(fmt.Sprintf("%010d", n))}
+		if cfg.C {
+			in.C = make([]byte, 8)
+			in.C[7] = byte(n)
+		}
+		if cfg.S {
+			in.S = []byte{byte(n), 1, 2}
+		}
+		if cfg.T {
+			in.T = make([]byte, 8)
+			in.T[6] = byte(n >> 3)
+		}
+		if cfg.P {
+			in.P = make([]byte, ref.PLen(cfg.PHash))
+		}
+		want, rerr := ref.OCRA(key, cfg, in)
+		if rerr != nil {
+			return bad(true, nil, "HARNESS: reference refused %+v", cfg)
+		}
+		hx := func(b []byte) string { return fmt.Sprintf("%x", b) }
+		body, _ := json.Marshal(map[string]any{"secret": ref.B32(key), "suite": map[string]any{"hash_function": []string{"SHA1", "SHA256", "SHA512"}[cfg.Hash], "code_digits": cfg.Digits,
+			"challenge_format": cfg.QFormat, "include_counter": cfg.C, "include_challenge": cfg.Q, "include_password": cfg.P, "include_session": cfg.S, "include_timestamp": cfg.T,
+			"password_hash": cfg.PHash, "timestep": cfg.TimeStep},
+			"input": map[string]any{"counter_hex": hx(in.C), "challenge_hex": hx(in.Q), "password_hex": hx(in.P), "session_info_hex": hx(in.S), "timestamp_hex": hx(in.T)}})
+		st, rb, err := rawHTTP(sv.addr, "POST", "/ocra/generate", body, 5*time.Second)
+		if err != nil {
+			if _, _, err2 := rawHTTP(sv.addr, "POST", "/ocra/generate", body, 15*time.Second); err2 != nil {
+				hang("C19", "distinct-suites", c, recorders["C19/distinct-suites"], fmt.Sprintf("the %d-th distinct structured suite of this process: POST /ocra/generate got no answer within 5 s and again within 15 s: %v", n+1, err2))
+			}
+			return ok(true, "slow-once")
+		}
+		if st != 200 || !strings.Contains(string(rb), `"`+want+`"`) {
+			return bad(true, nil, "the %d-th distinct structured suite of this process: POST /ocra/generate %s -> %d %s; RFC 6287 value %s", n+1, trunc(string(body), 300), st, trunc(string(rb), 200), want)
+		}
+		if n%25 == 24 {
+			if st, pb, perr := rawHTTP(sv.addr, "POST", "/hotp/generate", []byte(`{"secret":"GEZDGNBVGY3TQOJQGEZDGNBVGY3TQOJQ","counter":1,"digits":"6","algorithm":"SHA1"}`), 5*time.Second); perr != nil || st != 200 || !strings.Contains(string(pb), `"287082"`) {
+				return bad(true, nil, "probe after %d distinct suites: status %d body %s err %v", n+1, st, trunc(string(pb), 200), perr)
+			}
+		}
+		return ok(true, fmt.Sprintf("digits=%d", cfg.Digits))
+	})
+
+func TestC19_DistinctSuites(t *testing.T) {
+	defer c19Many.rec().Flush()
+	// not sharded by item: the point is that ONE server process sees them all (every shard runs its own server and its own full list)
+	for n := 0; n < ev.Pick(300, 3000); n++ {
+		c19Many.each(t, c19ManyCase{N: n + 5000*ev.Get().Shard})
+	}
+	c19Many.rec().Exhaustive()
 }
